@@ -58,7 +58,7 @@ def gen_fangs(rng, n_max, auth_rate=0.35):
     out = []
     for _ in range(rng.choice([0, 0, 1, 1, 2, n_max][:2 + 2 * n_max])):
         k = rng.random()
-        out.append({'k': 'jwt' if k < auth_rate / 2 else 'basic' if k < auth_rate else 'tag' if k < auth_rate + 0.25 else 'plain', 'id': rng.randrange(1, 5)})
+        out.append({'k': 'jwt' if k < auth_rate / 2 else rng.choice(['basic', 'basic', 'basic2']) if k < auth_rate else 'tag' if k < auth_rate + 0.25 else 'plain', 'id': rng.randrange(1, 5)})
     return out[:n_max]
 
 
@@ -69,10 +69,14 @@ def gen_app(rng, depth=0, used=(), prefix_params=0):
     if depth < 2:
         for _ in range(rng.choice([0, 0, 1, 1, 2] if depth == 0 else [0, 1])):
             free = [n for n in PNAMES if n not in used]
-            m = appgen.lit(rng, depth_max=2, allow_root=False, param_rate=0.4, pnames=free[:1] or ['zz'])
+            m = '/' if rng.random() < 0.12 else appgen.lit(rng, depth_max=2, allow_root=False, param_rate=0.4, pnames=free[:1] or ['zz'])          # `"/".By(child)`: a child application at the root prefix
             mp = appgen.pat(m)
             names = re.findall(r':([A-Za-z0-9_]+)', m)
             if len(names) != len(set(names)) or any(n in used for n in names): continue
+            if m == '/' and (mount_pre or any('mount' in x for x in app['items'])): continue          # only beside no other mount: its routes would be siblings of their prefixes
+            if m == '/':          # the child's routes join the parent's own tree: no application-level fangs on it (they would sit on the shared root node), pairs kept distinct by `dedupe`
+                child = gen_app(rng, 2, used, prefix_params); child['fangs'] = []          # (depth 2: no mounts of its own, their prefixes would become siblings of the parent's routes)
+                app['items'].append({'mount': '/', 'app': child}); break
             if any(appgen.conflict(mp, o) or appgen.conflict(o, mp) for o in mount_pre): continue
             mount_pre.append(mp)
             app['items'].append({'mount': m, 'app': gen_app(rng, depth + 1, used + names, prefix_params + len(names))})
@@ -104,7 +108,7 @@ def gen_app(rng, depth=0, used=(), prefix_params=0):
         r = rng.choice(routes)
         free_m = [m for m in appgen.METHODS if m not in r['methods']]
         if not free_m: continue
-        full = it['mount'].rstrip('/') + ('' if r['route'] == '/' else r['route'])
+        full = (it['mount'].rstrip('/') + ('' if r['route'] == '/' else r['route'])) or '/'
         key = tuple('*' if x is None else x for x in appgen.pat(full))
         if key in seen: continue
         seen.add(key)
@@ -118,18 +122,21 @@ def gen_app(rng, depth=0, used=(), prefix_params=0):
     return app
 
 
-def dedupe(app, prefix=(), seen=None):
-    """route/method pairs stay distinct over the whole tree (a second handler for one pair is refused at start-up)"""
-    seen = set() if seen is None else seen
+def dedupe(app, prefix=(), seen=None, plit=''):
+    """route/method pairs stay distinct over the whole tree (a second handler for one pair is refused at start-up), and one param position of one
+    route pattern carries one name (ASSUMPTIONS)"""
+    seen = {} if seen is None else seen
     keep = []
     for it in app['items']:
         if 'mount' in it:
-            dedupe(it['app'], prefix + tuple(appgen.pat(it['mount'])), seen)
+            dedupe(it['app'], prefix + tuple(appgen.pat(it['mount'])), seen, plit.rstrip('/') + it['mount'])
             keep.append(it)
         else:
             key = tuple('*' if x is None else x for x in list(prefix) + appgen.pat(it['route']))
+            names = tuple(re.findall(r':([A-Za-z0-9_]+)', plit.rstrip('/') + it['route']))
+            if seen.setdefault(('names', key), names) != names: continue
             it['methods'] = {m: k for m, k in it['methods'].items() if (key, m) not in seen}
-            seen.update((key, m) for m in it['methods'])
+            for m in it['methods']: seen[(key, m)] = True
             if it['methods']: keep.append(it)
     app['items'] = keep
 
@@ -186,7 +193,7 @@ def expected_op(names, k, chain):
     s = SIGS[k]
     tys = s['path'] + ['string'] * max(0, len(names) - len(s['path']))
     return {'path': [[n, t] for n, t in zip(names, tys)], 'query': sorted(map(tuple, s['query'])), 'body': s['body'], 'responses': sorted(s['responses']),
-            'security': [{'jwt': 'jwtAuth', 'basic': 'basicAuth'}[f['k']] for f in chain if f['k'] in ('jwt', 'basic')],
+            'security': [{'jwt': 'jwtAuth', 'basic': 'basicAuth', 'basic2': 'basicAuth'}[f['k']] for f in chain if f['k'] in ('jwt', 'basic', 'basic2')],
             'tags': ['t%d' % f['id'] for f in chain if f['k'] == 'tag']}
 
 
@@ -258,13 +265,13 @@ def judge(case, out, m):
             exp, got = expected_op(names, k, chain), read_op(op)
             for field in ('path', 'query', 'body', 'responses', 'security', 'tags'):
                 if exp[field] != got[field]: v.append(('violation', f'{where} (handler h{k}): {field} documented as {got[field]}, the application has {exp[field]}'))
-            if bool(got['security']) != any(f['k'] in ('jwt', 'basic') for f in chain): v.append(('violation', f'{where}: security requirement {got["security"]} but authentication fangs around it: {[f["k"] for f in chain]}'))
+            if bool(got['security']) != any(f['k'] in ('jwt', 'basic', 'basic2') for f in chain): v.append(('violation', f'{where}: security requirement {got["security"]} but authentication fangs around it: {[f["k"] for f in chain]}'))
     # a request built from a documented operation reaches its handler
     for pr in out.get('probes', []):
         key = (pr['path'], pr['method'])
         if key not in want_pairs: continue
         names, k, chain = want_pairs[key]
-        kinds = {f['k'] for f in chain}
+        kinds = {'basic' if f['k'] == 'basic2' else f['k'] for f in chain}
         if {'jwt', 'basic'} <= kinds: continue
         if pr['ran'] != k: v.append(('violation', f'a request built from the documented {pr["method"].upper()} {pr["path"]} ({pr["request"]}) ran handler {pr["ran"]} (status {pr["status"]}), the route registers h{k}'))
     # model
@@ -282,7 +289,7 @@ def judge(case, out, m):
 
 def nontrivial(case):
     t = json.dumps(case['app'])
-    return '"jwt"' in t or '"basic"' in t or re.search(r'"mount": "[^"]*:', t) is not None
+    return '"jwt"' in t or '"basic' in t or re.search(r'"mount": "[^"]*:', t) is not None
 
 
 def features(case, out):
